@@ -1,10 +1,87 @@
-import Vegeta.Go.Proto
-/-! Driver operations of property C18 (ops are named `c18.<name>`). -/
-namespace Vegeta.Driver.C18
-open Vegeta.Go Vegeta.Go.Proto
+import Vegeta.Model.Dial
+/-! Driver operations of property C18 (ops are named `c18.<name>`).
 
-def handle (_op : String) (args : List String) : Option String :=
-  match _op with
+* `c18.foe <nIds> <fam>* <n> <id>*`        fam: 4 | 6 | 0 (invalid)   → `ok <len(result)> <array afterwards>`
+* `c18.rr <k> <m>`                          m sequential ConnectTo dials over k replacements → indices used
+* `c18.resolver <k> <m>`                    m calls of the custom resolver's `address()` → indices used
+* `c18.path <world> <layers> <nDials> (<host> <port>)*`   composition of options, layers outermost first
+      world  = `<nAns> (<host> <n> <ip>*)* <nFam> (<ip> <fam>)*`
+      layers = `<n> ( d | c <nKeys> (<host> <port> <nRepl> (<host> <port>)*)* )*`
+      (shuffle choices are all-zero: only meaningful for configurations without DNS layer)
+* `c18.longrun <nIds> <fam>* <nDials> (<n> <j>*)*`   run the DNS-caching dial `nDials` times on the
+      cache entry `[0, …, nIds-1]` with the given Fisher–Yates choices → `ok <distinct IPv4 ids left> <distinct IPv6 ids left>`
+      (the addresses an observer sees in use in the long run)
+-/
+namespace Vegeta.Driver.C18
+open Vegeta.Go Vegeta.Go.Proto Vegeta.Model.Dial
+
+def pFam : P Family := do
+  let c ← nat
+  pure (if c == 4 then .v4 else if c == 6 then .v6 else .invalid)
+
+def famOfTable (t : List Family) (i : Nat) : Family := (t[i]?).getD .invalid
+
+def pHP : P HP := do
+  let h ← bytes
+  let p ← bytes
+  pure { host := h, port := p }
+
+def pLayer : P Layer := do
+  let t ← tok
+  if t == "d" then pure (.dns [])
+  else
+    let m ← listOf (do
+      let k ← pHP
+      let rs ← listOf pHP
+      pure (k, (rs, 0)))
+    pure (.connectTo m)
+
+def pWorld : P World := do
+  let ans ← listOf (do let h ← bytes; let ips ← listOf bytes; pure (h, ips))
+  let fam ← listOf (do let ip ← bytes; let f ← pFam; pure (ip, f))
+  pure { answers := ans, fam := fam }
+
+def showHPs (l : List HP) : String :=
+  toString l.length ++ l.foldl (fun s a => s ++ " " ++ hexEncode a.host ++ " " ++ hexEncode a.port) ""
+
+def runPath (w : World) : List Layer → List HP → List String
+  | _, [] => []
+  | ls, a :: rest =>
+    match dialVia w ls [] a with
+    | .ok (out, ls', _) => showHPs out :: runPath w ls' rest
+    | .error _ => "err" :: runPath w ls rest
+    | .panic => ["panic"]
+
+def handle (op : String) (args : List String) : Option String :=
+  match op with
+  | "c18.foe" => do
+    let ((tbl, ids), _) ← (do let t ← listOf pFam; let ids ← listOf nat; pure (t, ids)).run args
+    let r := firstOfEachInPlace (famOfTable tbl) ids
+    pure ("ok " ++ toString r.2 ++ " " ++ showNats r.1)
+  | "c18.rr" => do
+    let ((k, m), _) ← (do let k ← nat; let m ← nat; pure (k, m)).run args
+    if k == 0 then (if m == 0 then pure "ok 0" else pure "panic")
+    else pure ("ok " ++ showNats (rrSeq k m 0))
+  | "c18.resolver" => do
+    let ((k, m), _) ← (do let k ← nat; let m ← nat; pure (k, m)).run args
+    if k == 0 then (if m == 0 then pure "ok 0" else pure "panic")
+    else pure ("ok " ++ showNats (resolverSeq k m 0))
+  | "c18.path" => do
+    let ((w, ls, dials), _) ← (do
+      let w ← pWorld
+      let ls ← listOf pLayer
+      let ds ← listOf pHP
+      pure (w, ls, ds)).run args
+    pure ("ok " ++ String.intercalate " ; " (runPath w ls dials))
+  | "c18.longrun" => do
+    let ((tbl, choices), _) ← (do
+      let t ← listOf pFam
+      let ch ← listOf (listOf nat)
+      pure (t, ch)).run args
+    let fam := famOfTable tbl
+    let final := (dialMany fam choices (List.range tbl.length)).2
+    let distinct (f : Family) := ((List.range tbl.length).filter (fun i => fam i = f ∧ final.contains i)).length
+    pure ("ok " ++ toString (distinct .v4) ++ " " ++ toString (distinct .v6))
   | _ => none
 
 end Vegeta.Driver.C18
